@@ -14,7 +14,7 @@
    Extend on a row WITHOUT a deadline sets it to 1970 + delta (0 + delta): the row expires at
    once.  The property does not define this case; it is documented (O1), not asserted. *)
 From stdpp Require Import gmap.
-From ColumnV Require Import Bytes Store StoreProofs Expire.
+From ColumnV Require Import Bytes Store StoreProofs Check Expire.
 
 Theorem c17_pass_exact : ∀ now s i, i ∈ fill (vacuum now s) ↔ i ∈ fill s ∧ expired now s i = false.
 Proof. exact vacuum_fill. Qed.
@@ -39,3 +39,11 @@ Theorem c17_expired_is_removed : ∀ now s i d,
   deadline s i = Some d → d ≠ 0%Z → (d < now)%Z → i ∉ fill (vacuum now s).
 Proof. exact expired_is_removed. Qed.
 Print Assumptions c17_expired_is_removed.
+
+(* "setting or extending the TTL moves the deadline accordingly": the deadline cell after the Set /
+   Extend operations of one transaction (with c01_commit_read: of any history) is the fold of
+   ttl_step - every Extend adds to what the cell holds at that point *)
+Theorem c17_set_extend_arithmetic : ∀ i l d,
+  foldl (cstep ttl_col) (Some (V8 d)) (ttl_to_op i <$> l) = Some (V8 (foldl ttl_step d l)).
+Proof. exact ttl_ops_fold. Qed.
+Print Assumptions c17_set_extend_arithmetic.
